@@ -1,5 +1,7 @@
 SPECIFICATION GenSpec
 CONSTANT Which = "C13"
+CONSTANT SmallLen = 0
+CONSTANT AsBuilt = {}
 CONSTANT MaxLen = 3
 INVARIANT Export
 CHECK_DEADLOCK FALSE
